@@ -147,6 +147,14 @@ func (inst *instance) DrainListeners() {
 	})
 }
 
+// ShutdownLocalConf shutdowns the local conf store.
+// NOTE: It must be defined here, otherwise the method promoted from the
+// embedded restarter (whose instance is this one) would call itself forever.
+func (inst *instance) ShutdownLocalConf() {
+	// there is no local conf store to stop at present.
+	logger.Infof("Shutdown local conf store...")
+}
+
 // Shutdown shutdowns the instance.
 func (inst *instance) Shutdown() {
 	inst.admin.Stop()
